@@ -5,5 +5,6 @@ cd "$(dirname "$0")"
 H=$(mktemp -d)
 HOME=$H KA_VERIF=1 MPLBACKEND=Agg /venv/bin/python translate/gen.py || echo "setup: translator reported a failure (the checks will report it)"
 rm -rf "$H"
+tools/mkdriver.py
 cd lean
 lake build || echo "setup: lake build reported failures (the checks will report them)"
